@@ -10,6 +10,10 @@ type OracleGenOpts struct {
 	Restarts             bool
 	CheckTx              bool
 	HugePrices           bool // hostile supermajority values (C11): 1e29, negative, non-numeric, empty
+	// ManySourceRounds: in half of the rounds the reporters spread over up to nine source rounds
+	// (more distinct ones than a single validator may submit), mostly with the same value, so that
+	// agreement on the VALUE without agreement on the SOURCE ROUND is common
+	ManySourceRounds bool
 }
 
 // GenOraclePlan generates price submissions placed at every offset of the round windows.
@@ -26,6 +30,7 @@ func GenOraclePlan(p *PRNG, cfg Config, o OracleGenOpts) Plan {
 		values = append(values, "18446744073709551616", "123456789012345678901234567890", "-5", "abc", "")
 	}
 	truth := map[string]string{}
+	storm := map[string]bool{}
 	for bi := 0; bi < nb; bi++ {
 		b := Block{DtNs: cfg.BlockSec * 1e9, Prop: p.Intn(8)}
 		if p.Chance(1, 12) {
@@ -55,14 +60,20 @@ func GenOraclePlan(p *PRNG, cfg Config, o OracleGenOpts) Plan {
 			tk := fmt.Sprintf("%d/%d", f, round)
 			if _, ok := truth[tk]; !ok {
 				truth[tk] = values[p.Intn(4)]
+				if o.ManySourceRounds {
+					storm[tk] = p.Chance(1, 2)
+				}
 			}
 			for i := 0; i < cfg.NOps; i++ {
-				if !p.Chance(2, 5) {
+				if !p.Chance(2, 5) && !(storm[tk] && p.Chance(1, 2)) {
 					continue
 				}
 				n := 1
 				if p.Chance(1, 5) {
 					n = p.Range(2, int(cfg.OracleMaxNonce)+1)
+				}
+				if storm[tk] && p.Chance(1, 2) {
+					n = int(cfg.OracleMaxNonce)
 				}
 				for k := 0; k < n; k++ {
 					op := Op{K: "price", A: i, B: f, S: truth[tk]}
@@ -80,6 +91,12 @@ func GenOraclePlan(p *PRNG, cfg Config, o OracleGenOpts) Plan {
 					}
 					if p.Chance(1, 10) {
 						op.D = []int{4, 5, 6, 7, -3, 60}[p.Intn(6)]
+					}
+					if storm[tk] && p.Chance(4, 5) {
+						op.C = p.Intn(9)
+						if p.Chance(3, 4) {
+							op.S = truth[tk]
+						}
 					}
 					if o.Hostile && cfg.NOps > 1 && p.Chance(1, 20) {
 						// one signer, two messages: the second attributed to another validator
